@@ -1573,6 +1573,7 @@ func (l *lexer) scanCmdSubst(r rune) bool {
 			done:     make(chan struct{}),
 			cancel:   make(chan struct{}),
 			heredoc:  heredoc{c: make(chan struct{}, 1)},
+			aliases:  l.aliases,
 			line:     l.line,
 			col:      l.col,
 		}
@@ -1603,7 +1604,12 @@ func (l *lexer) scanCmdSubst(r rune) bool {
 			l.error(left, "syntax error: reached EOF while looking for matching '`'")
 			break
 		}
+		if len(ll.cmds) == 0 {
+			l.error(left, "syntax error: invalid command substitution")
+			break
+		}
 		// apply changes
+		l.aliases = ll.aliases
 		l.comments = append(l.comments, ll.comments...)
 		l.line = ll.line
 		l.col = ll.col
